@@ -12,7 +12,7 @@ from physt.histogram_base import HistogramBase
 
 if TYPE_CHECKING:
     # TODO: use float?
-    from typing import Any, Iterable, List, Optional, Sequence, Union
+    from typing import Any, Dict, Iterable, List, Mapping, Optional, Sequence, Union
 
     from physt.binnings import BinningLike
     from physt.typing_aliases import ArrayLike, Axis
@@ -70,6 +70,14 @@ class HistogramND(HistogramBase):
 
         # Missed values
         self._missed = np.array([missed], dtype=self.dtype)
+
+    @classmethod
+    def _kwargs_from_dict(cls, a_dict: Mapping[str, Any]) -> Dict[str, Any]:
+        kwargs = super()._kwargs_from_dict(a_dict)
+        if isinstance(kwargs.get("missed"), (list, tuple)):
+            # Serialized as a one-element array, expected as a scalar
+            (kwargs["missed"],) = kwargs["missed"]
+        return kwargs
 
     @property
     def bins(self) -> List[np.ndarray]:
